@@ -35,6 +35,7 @@ mod lower;
 mod patpos;
 mod patrule;
 mod nametest;
+mod deftypes;
 mod gopp;
 mod probe;
 mod rng;
@@ -76,6 +77,7 @@ fn main() {
         "dce" => dce::main(&args),
         "gocomp" => gocomp::main(&args),
         "c02names" => nametest::main(&args),
+        "c02deftypes" => deftypes::main(&args),
         "unify" => unify::main(&args),
         "solve" => solve::main(&args),
         "infer" => infer::main(&args),
